@@ -94,6 +94,15 @@ def e_sd(d):
         return "(SdStr %s)" % S(d["str"])
     if "text" in d:
         return "(SdText %s)" % S(d["text"])
+    if "fetched" in d:
+        return "SdFetched"
+    if "identity" in d:
+        i = d["identity"]
+        pint = lambda n: "(%s, %s)" % (b(n < 0), S(str(abs(n))))
+        return "(SdIdentity (mkIdn %s %s %s %s %s %s %s %s %s %s %s))" % (
+            opt(i["always"], b), opt(i["on_null"], b), opt(i["start"], pint), opt(i["increment"], pint), opt(i["minvalue"], pint),
+            opt(i["maxvalue"], pint), opt(i["nominvalue"], b), opt(i["nomaxvalue"], b), opt(i["cycle"], b), opt(i["cache"], pint),
+            opt(i["order"], b))
     return "(SdComputed %s %s)" % (S(d["computed"]), opt(d["persisted"], b))
 
 
@@ -146,9 +155,10 @@ def e_tblop(o):
             opt(o["type"], e_ty), opt(o["nullable"], b), e_tri(o["comment"], S), opt(o["existing_comment"], S),
             opt(o["existing_nullable"], b), opt(o["autoincrement"], b), opt(o["existing_server_default"], e_sd))
     if k == "create_index":
-        return "(OCreateIndex %s %s %s %s)" % (e_cname(o["name"]), lst(o["exprs"], e_ix), opt(o["unique"], b), opt(o["if_not_exists"], b))
+        return "(OCreateIndex %s %s %s %s %s)" % (e_cname(o["name"]), lst(o["exprs"], e_ix), opt(o["unique"], b), opt(o["if_not_exists"], b),
+                                                  e_ixkw(o["kw"]))
     if k == "drop_index":
-        return "(ODropIndex %s %s %s)" % (e_cname(o["name"]), opt(o["if_exists"], b), b(o["name_stable"]))
+        return "(ODropIndex %s %s %s %s)" % (e_cname(o["name"]), opt(o["if_exists"], b), b(o["name_stable"]), e_ixkw(o["kw"]))
     if k == "create_unique":
         return "(OCreateUnique %s %s %s %s)" % (e_cname(o["name"]), lst(o["cols"], e_ident), opt(o["deferrable"], b), opt(o["initially"], S))
     if k == "create_fk":
@@ -169,6 +179,8 @@ def e_top(o):
     k = o["k"]
     if k == "create_table":
         return "(TCreateTable %s)" % e_table(o["table"])
+    if k == "execute":
+        return "(TExecute %s)" % S(o["sql"])
     if k == "drop_table":
         return "(TDropTable %s %s %s %s)" % (e_ident(o["name"]), opt(o["schema"], e_ident), opt(o["if_exists"], b), b(o["schema_types"]))
     if k == "top":
@@ -330,6 +342,27 @@ def sql_token(expr):
     return str(expr.compile(dialect=DefaultDialect(), compile_kwargs={"literal_binds": True, "include_table": False}))
 
 
+IDENTITY_KEYS = ["always", "on_null", "start", "increment", "minvalue", "maxvalue", "nominvalue", "nomaxvalue", "cycle", "cache", "order"]
+
+
+def a_ixkw(kw):
+    """the modelled dialect options of an index; anything else is outside the universe"""
+    import sqlalchemy as sa
+    kw = dict(kw)
+    u, w, c = kw.pop("postgresql_using", None), kw.pop("postgresql_where", None), kw.pop("postgresql_concurrently", None)
+    if kw:
+        raise OutsideUniverse("index dialect kwargs %r" % (sorted(kw),))
+    if w is not None:
+        w = sql_token(w) if isinstance(w, sa.sql.ClauseElement) else str(w)
+    if u is not None and not isinstance(u, str):
+        raise OutsideUniverse("postgresql_using")
+    return {"using": u, "where": w, "conc": c}
+
+
+def e_ixkw(k):
+    return "(mkIxKw %s %s %s)" % (opt(k["using"], S), opt(k["where"], S), opt(k["conc"], b))
+
+
 def a_default(d):
     import sqlalchemy as sa
     from alembic.util import sqla_compat
@@ -338,7 +371,11 @@ def a_default(d):
     if sqla_compat._server_default_is_computed(d):
         return {"computed": sql_token(d.sqltext), "persisted": d.persisted}
     if sqla_compat._server_default_is_identity(d):
-        raise OutsideUniverse("Identity")
+        if getattr(d, "dialect_kwargs", None):
+            raise OutsideUniverse("Identity dialect kwargs")
+        return {"identity": {k: getattr(d, k, None) for k in IDENTITY_KEYS}}
+    if type(d) is sa.FetchedValue:
+        return {"fetched": True}
     if isinstance(d, sa.schema.DefaultClause):
         if isinstance(d.arg, str):
             return {"str": d.arg}
@@ -455,8 +492,7 @@ def a_tblop(op):
                 "existing_server_default": None if (esd is None or esd is False) else a_default(esd)}
     if isinstance(op, ops.CreateIndexOp):
         idx = op.to_index()
-        if idx.dialect_kwargs:
-            raise OutsideUniverse("index dialect kwargs")
+        ixkw = a_ixkw(idx.dialect_kwargs)
         exprs = []
         for e in idx.expressions:
             if isinstance(e, sa.Column):
@@ -466,11 +502,11 @@ def a_tblop(op):
                     raise OutsideUniverse("labelled index expression")
                 exprs.append({"expr": sql_token(e)})
         return {"k": "create_index", "name": a_cname(op.index_name), "exprs": exprs, "unique": op.unique,
-                "if_not_exists": op.if_not_exists}
+                "if_not_exists": op.if_not_exists, "kw": ixkw}
     if isinstance(op, ops.DropIndexOp):
-        if {k: v for k, v in op.kw.items() if k != "unique"}:      # unique is carried by from_index and irrelevant to DROP INDEX
-            raise OutsideUniverse("drop_index kw %r" % (op.kw,))
-        return {"k": "drop_index", "name": a_cname(op.index_name), "if_exists": op.if_exists, "name_stable": ix_name_stable(op)}
+        # unique is carried by from_index and irrelevant to DROP INDEX
+        return {"k": "drop_index", "name": a_cname(op.index_name), "if_exists": op.if_exists, "name_stable": ix_name_stable(op),
+                "kw": a_ixkw({k: v for k, v in op.kw.items() if k != "unique"})}
     if isinstance(op, ops.CreateUniqueConstraintOp):
         kw = dict(op.kw)
         d, i = kw.pop("deferrable", None), kw.pop("initially", None)
@@ -517,6 +553,10 @@ def a_top(op):
     from alembic.operations import ops
     if isinstance(op, ops.CreateTableOp):
         return {"k": "create_table", "table": a_table(op)}
+    if isinstance(op, ops.ExecuteSQLOp):
+        if not isinstance(op.sqltext, str) or op.execution_options:
+            raise OutsideUniverse("execute with a construct / options")
+        return {"k": "execute", "sql": op.sqltext}
     if isinstance(op, ops.DropTableOp):
         from sqlalchemy.sql.sqltypes import SchemaType
         st = any(isinstance(c.type, SchemaType) and not isinstance(c.type, sa_Boolean()) for c in op.to_table().columns)
